@@ -30,12 +30,16 @@ structure MemObs where
   ret : ORet
   leaves : List (Reason × ORec)
   piped : List ORec
-  usage : Nat
-  entries : Nat
-  has : List Nat
+  /-- state observations; `none` when the line does not carry them (the outer line of an operation
+  whose callbacks re-enter the cache) -/
+  usage : Option Nat
+  entries : Option Nat
+  has : Option (List Nat)
   /-- `(rid, refs, is_outdated)` for every record the harness holds a handle to -/
-  held : List (Nat × Nat × Bool)
+  held : Option (List (Nat × Nat × Bool))
   stable : Bool
+  /-- hand-offs observed separately from the nested operations' (absent in re-entrant traces) -/
+  pipedKnown : Bool := true
 
 structure MRec where
   rid : Nat
@@ -220,11 +224,11 @@ def step (p : Params) (st : St) (o : MemObs) : St × Option Fail :=
   let fReason := checkReasons stR o
   let fPipe : Option Fail :=
     let ev := (o.leaves.filter fun (e, _) => e = Reason.evict).map (·.2)
-    if ev = o.piped then none
+    if !o.pipedKnown || ev = o.piped then none
     else some { prop := "C13", clause := "disk_handoff_iff_evicted", detail := s!"evicted {repr (ev.map (·.rid))} handed off {repr (o.piped.map (·.rid))}" }
   let fPhantom : Option Fail := match o.op with
     | .drop rid =>
-      if ((findRec st rid).map (·.phantom)).getD false && nheldOf st rid = 1 then
+      if o.pipedKnown && ((findRec st rid).map (·.phantom)).getD false && nheldOf st rid = 1 then
         (if o.piped.map (·.rid) = [rid] then none
          else some { prop := "C13", clause := "disk_only_entry_handed_off_once", detail := s!"last handle of disk-only rid={rid} dropped, handed off: {repr (o.piped.map (·.rid))}" })
       else none
@@ -257,20 +261,29 @@ def step (p : Params) (st : St) (o : MemObs) : St × Option Fail :=
   -- 5. C05 / C13: accounting and findability on the post-state
   let expHas := sortNat (st2.resident.map (·.1))
   let fHas : Option Fail :=
-    if sortNat o.has = expHas then none
+    match o.has with
+    | none => none
+    | some ohas =>
+    if sortNat ohas = expHas then none
     else
-      let ghosts := o.has.filter fun k => !expHas.contains k
+      let ghosts := ohas.filter fun k => !expHas.contains k
       if !ghosts.isEmpty then some { prop := "C13", clause := "not_findable_once_notified", detail := s!"keys {ghosts} still findable after their leave notification" }
-      else some { prop := "C13", clause := "every_leave_is_notified", detail := s!"keys {expHas.filter fun k => !o.has.contains k} vanished without a leave notification" }
+      else some { prop := "C13", clause := "every_leave_is_notified", detail := s!"keys {expHas.filter fun k => !ohas.contains k} vanished without a leave notification" }
   let fUsage : Option Fail :=
-    if o.usage ≠ totalUsage st2 then some { prop := "C05", clause := "usage_exact", detail := s!"usage()={o.usage}, findable entries weigh {totalUsage st2}" }
-    else if o.entries ≠ st2.resident.length then some { prop := "C05", clause := "entries_exact", detail := s!"entries()={o.entries}, findable entries: {st2.resident.length}" }
-    else none
+    match o.usage, o.entries with
+    | some u, some en =>
+      if u ≠ totalUsage st2 then some { prop := "C05", clause := "usage_exact", detail := s!"usage()={u}, findable entries weigh {totalUsage st2}" }
+      else if en ≠ st2.resident.length then some { prop := "C05", clause := "entries_exact", detail := s!"entries()={en}, findable entries: {st2.resident.length}" }
+      else none
+    | _, _ => none
   -- 6. C18: handles
   let fHeld : Option Fail :=
+    match o.held with
+    | none => none
+    | some oheld =>
     let expRids := sortNat (st2.nheld.map (·.1))
-    if sortNat (o.held.map (·.1)) ≠ expRids then none   -- harness bookkeeping, not an observation
-    else firstFail (o.held.map fun (rid, refs, outdated) =>
+    if sortNat (oheld.map (·.1)) ≠ expRids then none   -- harness bookkeeping, not an observation
+    else firstFail (oheld.map fun (rid, refs, outdated) =>
       if refs ≠ nheldOf st2 rid then
         some { prop := "C18", clause := "refs_equal_outstanding_handles", detail := s!"rid={rid} refs()={refs} but {nheldOf st2 rid} handles are outstanding" }
       else
